@@ -16,10 +16,15 @@ def main(args):
     from corpus import specs
     inc = corpus.generate_headers(sorted({s.emb for s in specs.ALL.values()}), os.path.join(core.VERIF, "corpus"))
     try:
-        more = (corpus.read_jobs("corpus.specs", list(specs.ALL), inc, only_safety=True) + corpus.vwrite_jobs("corpus.specs", inc, only_safety=True)
+        from contracts import cpp_arith, cpp_array, text_codec
+        extra_jobs = cpp_arith.jobs(args.tier) + cpp_array.jobs(args.tier) + text_codec.jobs(args.tier)
+        for j in extra_jobs:
+            j["only_safety"] = True
+        more = (extra_jobs + corpus.read_jobs("corpus.specs", list(specs.ALL), inc, only_safety=True) + corpus.vwrite_jobs("corpus.specs", inc, only_safety=True)
                 + corpus.c20_jobs("corpus.specs", [n for n, s in specs.ALL.items() if getattr(s, "c20", True)], inc, only_safety=True))
         r = viewcheck.run("C04", args, ["UInt", "Int", "Bcd", "Flag", "Float", "Enum"], ["read", "write"], keep=keep, enum_subset_in_quick=True, only_safety=True, more_jobs=more,
                           functions=["every function under contract in C02 and C03 (same wrappers, safety obligations)",
+                                     "emboss_arithmetic.h templates, GenericArrayView, DecodeInteger / WriteIntegerToTextStream (safety obligations of the C01/C20/C06 wrappers)",
                                      "generated views of the corpus structures: Ok/IsComplete/SizeIsKnown/has_x/x().Ok/Read/CouldWriteValue/TryToWrite/Equals/TryToCopyFrom harnesses (safety obligations)"])
     finally:
         shutil.rmtree(inc, ignore_errors=True)
@@ -35,7 +40,7 @@ def main(args):
         r.function(f, "pyvc: body executed symbolically against sidecar contract (contracts/gate.py)")
     r.assume(*core.STANDING_ASSUMPTIONS["E1"])
     r.assume("layer 3 (C05 soundness + gate => the requires of the arithmetic templates) is a paper composition")
-    r.assume("text output / UpdateFromText are not under contract (std::string and stream templates)",
+    r.assume("text output / UpdateFromText: only the integer codec (DecodeInteger, WriteIntegerToTextStream) is under contract; the token reader and the per-structure text methods (std::string, std::vector, stream templates) are not",
              "pointer formation beyond a region without dereference (ContiguousBuffer::GetOffsetStorage) is not checked: the observation point is the sanitizers")
-    r.extra["not_covered"] = ["programs outside the corpus", "text I/O (UpdateFromText, WriteToString)"]
+    r.extra["not_covered"] = ["programs outside the corpus", "text I/O above the integer codec (ReadToken, per-structure UpdateFromTextStream / WriteToTextStream)"]
     return r.finish()
